@@ -132,7 +132,7 @@ func (sc *Scen) faultStep() {
 		a := as[r.Intn(len(as))]
 		c := sc.stopped[a]
 		delete(sc.stopped, a)
-		if sc.class == "fd" && r.Chance(1, 3) { // the default configuration: a fresh NodeID (uuid) per process
+		if (sc.class == "fd" || sc.class == "mini") && r.Chance(1, 3) { // the default configuration: a fresh NodeID (uuid) per process
 			sc.nRest++
 			c.ID = fmt.Sprintf("%s-r%d", strings.SplitN(c.ID, "-r", 2)[0], sc.nRest)
 			sc.desc = append(sc.desc, "restart "+a+" with the fresh id "+c.ID)
@@ -140,7 +140,22 @@ func (sc *Scen) faultStep() {
 			sc.desc = append(sc.desc, "restart "+a+" with the same id")
 		}
 		s.Start(c)
-	case x < 95 && len(run) > 0 && (sc.class == "leave" || sc.class == "fd"):
+	case x >= 95 && len(run) > 0 && sc.class == "mini": // admin: ForceMemberDown of any member, the node itself included
+		a := run[r.Intn(len(run))]
+		var ids []string
+		for id := range s.nodes[a].actor.XVView().Members {
+			ids = append(ids, id)
+		}
+		sort.Strings(ids)
+		ids = append(ids, "nobody")
+		id := ids[r.Intn(len(ids))]
+		// ForceMemberDown of the node's own id at itself is only generated when no failure-detector removal can follow:
+		// a tick that then removes ALL remaining members empties the view, recomputeCounts skips the prune, and which
+		// version-vector entries survive depends on the Go map iteration order of RunDetection (outside the model)
+		if id != s.nodes[a].cfg.ID || int64(s.nodes[a].cfg.FD) >= 1000000 {
+			s.ForceDown(a, id)
+		}
+	case x < 95 && len(run) > 0 && (sc.class == "leave" || sc.class == "fd" || sc.class == "mini"):
 		a := run[r.Intn(len(run))]
 		if !sc.isSeed(a) {
 			s.Leave(a)
@@ -376,4 +391,32 @@ func autoRound(s *Sim, t int64) bool {
 		}
 	}
 	return drain()
+}
+
+// miniScenario: 2-3 nodes and a dozen arbitrary steps (no fault-free phase, no monitors): short lock-step cases.
+func miniScenario(r *lib.Rand) *Sim {
+	s := NewSim()
+	sc := &Scen{s: s, r: r, class: "mini", blocked: map[[2]string]bool{}, stopped: map[string]Cfg{}, D: 50, fdEvery: 3}
+	s.now = 1000
+	n := 1 + r.Intn(3)
+	T := []int64{0, 120, 1000000}[r.Intn(3)]
+	conf := []int64{0, 60}[r.Intn(2)]
+	sc.seeds = []string{"127.0.0.1:7001"}
+	for i := 0; i < n; i++ {
+		sc.plan = append(sc.plan, Cfg{ID: fmt.Sprintf("n%d", i+1), Addr: fmt.Sprintf("127.0.0.1:%d", 7001+i), Seeds: sc.seeds, FD: time.Duration(T), Confirm: time.Duration(conf)})
+	}
+	sc.lossPct = 15
+	s.askOK = func(src, dst string) bool { return !sc.isBlocked(src, dst) && r.Intn(100) >= sc.lossPct }
+	s.Start(sc.plan[0])
+	sc.plan = sc.plan[1:]
+	for i := 0; i < 80 && len(s.steps) < 16; i++ {
+		sc.faultStep()
+	}
+	for _, a := range sc.runningAddrs() { // one failure-detection tick everywhere (quorum recovery after a self force-down)
+		if s.nodes[a] != nil && s.nodes[a].timers[cluster.SchedRefFailureDetection] {
+			s.now += 7
+			s.FdTick(a)
+		}
+	}
+	return s
 }
